@@ -4,34 +4,43 @@ From Coq Require Import List Arith ZArith Bool Lia.
 From SH Require Import base.Pool gen.Extracted_iter iter.Model iter.Base.
 Import ListNotations.
 
-Definition in_poll (p : cpc) : Prop := p = CP1 \/ p = CP2 \/ p = CP3 \/ p = CP4 \/ p = CP5.
+Definition poll_op (o : copk) : Prop := o = OFNext \/ o = OPoll.
 
 Record InvA (c0 : nat) (w : world) : Prop := {
   a_cap : cap (w_sh w) = c0;
   a_cw : closew (w_sh w) = true -> closed (w_sh w) = true;
   a_arm : armed (w_sh w) = true -> pipe (w_sh w) = 0;
   a_wait : cop (w_co w) = OPoll -> cb_last (w_co w) = Some false -> armed (w_sh w) = true \/ notified (w_sh w) = true;
-  a_p5 : cpc_ (w_co w) = CP5 -> cb_last (w_co w) = Some false \/ closed (w_sh w) = true;
-  a_pend : cpc_ (w_co w) = CIdle -> cres_ (w_co w) = RPending -> cb_last (w_co w) = Some false /\ cop (w_co w) = OPoll;
-  a_itmax : (cpc_ (w_co w) = CP3 \/ cpc_ (w_co w) = CP4 \/ cpc_ (w_co w) = CP5 \/ (cpc_ (w_co w) = CRead /\ cop (w_co w) = OFNext)
-             \/ (cpc_ (w_co w) = CIdle /\ cres_ (w_co w) = RPending)) -> MAX_SIGNUM <= itpos (w_co w);
-  a_nit : cop (w_co w) = OPending \/ cop (w_co w) = OWait -> cit (w_co w) = None;
+  a_pend : cpc_ (w_co w) = CIdle -> cres_ (w_co w) = RPending -> cop (w_co w) = OPoll;
+  a_ncb : ncb (w_co w) = 0 -> cb_last (w_co w) = None;
+  a_it3 : cpc_ (w_co w) = CP3 -> MAX_SIGNUM <= itpos (w_co w);
+  a_it4 : cpc_ (w_co w) = CP4 -> MAX_SIGNUM <= itpos (w_co w);
+  a_it5 : cpc_ (w_co w) = CP5 -> MAX_SIGNUM <= itpos (w_co w);
+  a_itr : cpc_ (w_co w) = CRead -> cop (w_co w) = OFNext -> MAX_SIGNUM <= itpos (w_co w);
+  a_iti : cpc_ (w_co w) = CIdle -> cres_ (w_co w) = RPending -> MAX_SIGNUM <= itpos (w_co w);
+  a_nitp : cop (w_co w) = OPending -> cit (w_co w) = None;
+  a_nitw : cop (w_co w) = OWait -> cit (w_co w) = None;
   a_read : cpc_ (w_co w) = CRead -> cop (w_co w) = OWait \/ cop (w_co w) = OFNext;
   a_wcl : cpc_ (w_co w) = CWClosed -> cop (w_co w) = OWait;
-  a_pollop : in_poll (cpc_ (w_co w)) -> cop (w_co w) = OFNext \/ cop (w_co w) = OPoll;
+  a_po1 : cpc_ (w_co w) = CP1 -> poll_op (cop (w_co w));
+  a_po2 : cpc_ (w_co w) = CP2 -> poll_op (cop (w_co w));
+  a_po3 : cpc_ (w_co w) = CP3 -> poll_op (cop (w_co w));
+  a_po5 : cpc_ (w_co w) = CP5 -> poll_op (cop (w_co w));
   a_p4 : cpc_ (w_co w) = CP4 -> cop (w_co w) = OPoll;
-  a_u1 : closew (w_sh w) = true -> cpc_ (w_co w) = CRead \/ cpc_ (w_co w) = CP4 -> 0 < pipe (w_sh w);
+  a_u1r : closew (w_sh w) = true -> cpc_ (w_co w) = CRead -> 0 < pipe (w_sh w);
+  a_u14 : closew (w_sh w) = true -> cpc_ (w_co w) = CP4 -> 0 < pipe (w_sh w);
   a_u2 : closew (w_sh w) = true -> cop (w_co w) = OPoll -> cb_last (w_co w) = Some false -> notified (w_sh w) = true;
-  a_k1 : forall k, nth_error (w_fr w) k = Some (mkFrame FK F1) -> closed (w_sh w) = true
+  a_k1 : forall k p, nth_error (w_fr w) k = Some (mkFrame FK p) -> p <> F0 -> closed (w_sh w) = true
 }.
 
 Lemma InvA_init raw c : InvA c (w_init raw c).
 Proof.
-  constructor; simpl; unfold in_poll; intros; try congruence; try lia;
+  constructor; simpl; unfold poll_op; intros; try congruence; try lia;
     repeat match goal with H : _ \/ _ |- _ => destruct H end; try congruence;
     repeat match goal with H : _ /\ _ |- _ => destruct H end; try congruence.
   destruct k; discriminate.
 Qed.
+
 
 Ltac splitor :=
   repeat match goal with
@@ -39,8 +48,14 @@ Ltac splitor :=
          | H : _ /\ _ |- _ => destruct H
          end.
 
-Ltac fin := unfold in_poll, itpos, scan_pc in *; simpl in *; intros; splitor; subst;
-            try congruence; try lia; try discriminate; auto.
+Ltac mp :=
+  repeat match goal with
+         | H : ?x = ?x -> _ |- _ => specialize (H eq_refl)
+         | H : ?P -> _, H' : ?P |- _ => match type of P with Prop => specialize (H H') end
+         end.
+
+Ltac fin := unfold poll_op, itpos, scan_pc in *; simpl in *; intros; splitor; subst; mp; splitor; subst;
+            try congruence; try lia; try discriminate; auto; try solve [eauto].
 
 (** do_wake: the byte goes in unless the pipe is full; either way the pipe is not empty afterwards. *)
 Lemma do_wake_spec s : 1 <= cap s ->
@@ -61,39 +76,239 @@ Lemma InvA_frame c0 w k f : 1 <= c0 -> InvA c0 w -> nth_error (w_fr w) k = Some 
   InvA c0 (let '(s, f', es) := fstep (w_sh w) f in mkW s (w_co w) (w_bats w) (w_gone w) (upd (w_fr w) k f')).
 Proof.
   intros Hc I Hk. pose proof (a_k1 _ _ I) as K1. destruct I. destruct w as [sh co bats gone fr]. simpl in *.
-  assert (KU : forall f' s', (pc f' = F1 -> fk f' = FK -> closed s' = true) -> (closed sh = true -> closed s' = true) ->
-               forall j, nth_error (upd fr k f') j = Some (mkFrame FK F1) -> closed s' = true).
-  { intros f' s' H1 H2 j Hj. apply nth_upd_cases in Hj. destruct Hj as [(_ & _ & E)|(_ & E)].
-    - subst f'. apply H1; reflexivity.
+  assert (KU : forall f' s', (pc f' <> F0 -> fk f' = FK -> closed s' = true) -> (closed sh = true -> closed s' = true) ->
+               forall j p, nth_error (upd fr k f') j = Some (mkFrame FK p) -> p <> F0 -> closed s' = true).
+  { intros f' s' H1 H2 j p Hj Hp. apply nth_upd_cases in Hj. destruct Hj as [(_ & _ & E)|(_ & E)].
+    - subst f'. apply H1; auto.
     - apply H2. eapply K1; eauto. }
   destruct f as [[sg info| |sg] p]; destruct p; unfold fstep; simpl.
   - (* handler store *)
     unfold do_store. destruct (exraw sh); [destruct (length (slot sh sg) <? CHAN_SLOTS)|]; constructor; simpl; auto;
-      apply KU; simpl; auto; congruence.
+      apply KU; simpl; auto; intros; try congruence; try (eapply K1; eauto; discriminate).
   - (* handler wake *)
     pose proof (do_wake_spec sh ltac:(lia)) as W. simpl in W.
     destruct W as (W1 & W2 & W3 & W4 & W5 & W6 & W7 & W8 & W9 & W10 & W11 & W12 & W13 & W14 & W15 & W16).
-    constructor; simpl; try rewrite W2; try rewrite W3; try rewrite W4; auto; intros; try lia.
-    + specialize (a_wait0 H H0). destruct a_wait0 as [A|A]; right; auto.
-    + eapply KU; eauto; simpl; try congruence; try (rewrite W3; auto).
-  - constructor; simpl; auto. apply KU; simpl; auto; congruence.
-  - constructor; simpl; auto. apply KU; simpl; auto; congruence.
+    constructor; simpl; try rewrite W2; try rewrite W3; try rewrite W4; auto; intros; try lia;
+      try (eapply KU; eauto; simpl; try congruence; try (rewrite W3; auto); fail);
+      try (destruct (a_wait0 ltac:(assumption) ltac:(assumption)) as [A|A]; solve [auto | right; auto]).
+  - constructor; simpl; auto. apply KU; simpl; auto; intros; try congruence; try (eapply K1; eauto; discriminate).
+  - constructor; simpl; auto. apply KU; simpl; auto; intros; try congruence; try (eapply K1; eauto; discriminate).
   - (* close store *)
     constructor; simpl; auto; intros; try congruence.
   - (* close wake *)
     pose proof (do_wake_spec sh ltac:(lia)) as W. simpl in W.
     destruct W as (W1 & W2 & W3 & W4 & W5 & W6 & W7 & W8 & W9 & W10 & W11 & W12 & W13 & W14 & W15 & W16).
-    assert (Cl : closed sh = true) by (eapply K1; eauto).
-    constructor; simpl; try rewrite W2; try rewrite W3; try rewrite W4; auto; intros; try lia.
-    + specialize (a_wait0 H H0). destruct a_wait0 as [A|A]; right; auto.
-    + specialize (a_wait0 H0 H1). destruct a_wait0 as [A|A]; auto.
-    + eapply KU; eauto; simpl; try congruence; try (rewrite W3; auto).
-  - constructor; simpl; auto. apply KU; simpl; auto; congruence.
-  - constructor; simpl; auto. apply KU; simpl; auto; congruence.
+    assert (Cl : closed sh = true) by (eapply K1; eauto; discriminate).
+    constructor; simpl; try rewrite W2; try rewrite W3; try rewrite W4; auto; intros; try lia;
+      try (eapply KU; eauto; simpl; try congruence; try (rewrite W3; auto); fail);
+      try (destruct (a_wait0 ltac:(assumption) ltac:(assumption)) as [A|A]; solve [auto | right; auto]).
+  - constructor; simpl; auto. apply KU; simpl; auto; intros; try congruence; try (eapply K1; eauto; discriminate).
+  - constructor; simpl; auto. apply KU; simpl; auto; intros; try congruence; try (eapply K1; eauto; discriminate).
   - (* add lock *)
-    destruct (idsm sh); [constructor; simpl; auto; apply KU; simpl; auto; congruence|].
-    destruct (watch sh sg); constructor; simpl; auto; apply KU; simpl; auto; congruence.
-  - constructor; simpl; auto; apply KU; simpl; auto; congruence.
-  - constructor; simpl; auto; apply KU; simpl; auto; congruence.
-  - constructor; simpl; auto; apply KU; simpl; auto; congruence.
+    destruct (idsm sh); [constructor; simpl; auto; apply KU; simpl; auto; intros; try congruence; try (eapply K1; eauto; discriminate)|].
+    destruct (watch sh sg); constructor; simpl; auto; apply KU; simpl; auto; intros; try congruence; try (eapply K1; eauto; discriminate).
+  - constructor; simpl; auto; apply KU; simpl; auto; intros; try congruence; try (eapply K1; eauto; discriminate).
+  - constructor; simpl; auto; apply KU; simpl; auto; intros; try congruence; try (eapply K1; eauto; discriminate).
+  - constructor; simpl; auto; apply KU; simpl; auto; intros; try congruence; try (eapply K1; eauto; discriminate).
 Qed.
+
+Ltac casebool :=
+  repeat match goal with
+         | |- context [if ?b then _ else _] => destruct b eqn:?
+         | |- context [match ?x with O => _ | S _ => _ end] => destruct x eqn:?
+         end.
+
+Lemma InvA_cons c0 w ch : 1 <= c0 -> InvA c0 w ->
+  InvA c0 (let '(s, c, b, es) := cstep (w_sh w) (w_co w) (w_bats w) ch in mkW s c b (w_gone w) (w_fr w)).
+Proof.
+  intros Hc I. destruct I. destruct w as [sh co bats gone fr]. destruct co as [p op it res cb n]. simpl in *.
+  unfold cstep; simpl. destruct p; simpl.
+  - constructor; simpl; auto.
+  - (* CFlush *) destruct op; simpl; constructor; fin.
+  - (* CWClosed *) destruct (closed sh) eqn:Ecl; constructor; fin.
+  - (* CRead *)
+    destruct (Nat.eqb ch 1); [constructor; simpl; auto|].
+    destruct (pipe sh) eqn:Ep; constructor; fin.
+  - (* CP1 *)
+    destruct (closed sh) eqn:Ecl; simpl; [constructor; fin|]. unfold scan_pc.
+    match goal with |- context [if ?b then _ else _] => destruct b eqn:El end; constructor; fin;
+      apply Nat.ltb_ge in El; unfold itpos in El; simpl in El; lia.
+  - (* CP2 *)
+    unfold do_load, itpos, scan_pc; simpl. destruct it as [q|]; simpl.
+    + destruct (slot sh q) eqn:Es; simpl.
+      * destruct (S q <? MAX_SIGNUM) eqn:El; constructor; fin; try (apply Nat.ltb_ge in El; lia).
+      * constructor; fin.
+    + destruct (slot sh MAX_SIGNUM) eqn:Es; simpl.
+      * destruct (S MAX_SIGNUM <? MAX_SIGNUM) eqn:El; constructor; fin.
+      * constructor; fin.
+  - (* CP3 *)
+    unfold none_exit, pend_exit, poll_none_retest; simpl.
+    destruct (closed sh) eqn:Ecl; simpl; [constructor; fin|]. destruct op; constructor; fin.
+  - (* CP4 *)
+    unfold none_exit, pend_exit, poll_none_retest; simpl.
+    destruct (pipe sh) eqn:Ep; simpl; constructor; fin.
+  - (* CP5 *)
+    unfold pend_exit; simpl.
+    destruct (closed sh) eqn:Ecl; simpl; [constructor; fin|]. destruct op; constructor; fin.
+Qed.
+
+Lemma InvA_call c0 w o : InvA c0 w ->
+  InvA c0 (let '(s, c, g, es) := ccall (w_sh w) (w_co w) (w_gone w) o in mkW s c (w_bats w) g (w_fr w)).
+Proof.
+  intros I. destruct I. destruct w as [sh co bats gone fr]. destruct co as [p op it res cb n]. simpl in *.
+  unfold ccall; simpl. destruct p; simpl; try (constructor; simpl; assumption).
+  destruct o; simpl; try (constructor; fin; fail);
+    (destruct it as [q|]; simpl; [constructor; fin|constructor; simpl; assumption]).
+Qed.
+
+Lemma InvA_batch c0 w k p : InvA c0 w ->
+  InvA c0 (let '(s, p', es) := bstep (w_sh w) p in mkW s (w_co w) (upd (w_bats w) k p') (w_gone w) (w_fr w)).
+Proof.
+  intros I. destruct I. destruct w as [sh co bats gone fr]. simpl in *.
+  unfold bstep. destruct (p <? MAX_SIGNUM); [|constructor; simpl; assumption].
+  unfold do_load. destruct (slot sh p); constructor; simpl; assumption.
+Qed.
+
+Lemma InvA_spawn c0 sh co bats gone fr f : pc f = F0 ->
+  InvA c0 (mkW sh co bats gone fr) -> cap sh = c0 ->
+  InvA c0 (mkW sh co bats gone (fr ++ [f])).
+Proof.
+  intros Hf I Hc. destruct I. simpl in *. constructor; simpl; auto.
+  intros k p Hk Hp. apply nth_app_cases in Hk. destruct Hk as [Hk|[_ Hk]]; [eauto|]. subst f. simpl in Hf. congruence.
+Qed.
+
+Lemma InvA_wstep c0 w l : 1 <= c0 -> InvA c0 w -> InvA c0 (fst (wstep w l)).
+Proof.
+  intros Hc I. destruct l; simpl.
+  - pose proof (InvA_call c0 w o I) as H. destruct (ccall (w_sh w) (w_co w) (w_gone w) o) as [[[s c] g] es]. exact H.
+  - pose proof (InvA_cons c0 w ch Hc I) as H. destruct (cstep (w_sh w) (w_co w) (w_bats w) ch) as [[[s c] b] es]. exact H.
+  - destruct (nth_error (w_bats w) k) as [p|] eqn:E; [|exact I].
+    pose proof (InvA_batch c0 w k p I) as H. destruct (bstep (w_sh w) p) as [[s p'] es]. exact H.
+  - destruct (nth_error (w_fr w) k) as [f|] eqn:E; [|exact I].
+    pose proof (InvA_frame c0 w k f Hc I E) as H. destruct (fstep (w_sh w) f) as [[s f'] es]. exact H.
+  - destruct (watch (w_sh w) sg); [|exact I]. simpl.
+    destruct w as [sh co bats gone fr]. simpl.
+    assert (I2 : InvA c0 (mkW (set_begun sh (fupd (begun sh) sg (begun sh sg ++ [info]))) co bats gone fr)).
+    { destruct I. constructor; simpl in *; auto. }
+    apply InvA_spawn; auto. destruct I; auto.
+  - destruct w as [sh co bats gone fr]. simpl. apply InvA_spawn; auto. destruct I; auto.
+  - destruct (sg <? MAX_SIGNUM); [|exact I]. destruct w as [sh co bats gone fr]. simpl. apply InvA_spawn; auto. destruct I; auto.
+Qed.
+
+Theorem InvA_reach raw c ls : 1 <= c -> InvA c (reach raw c ls).
+Proof.
+  intro Hc. apply reach_ind.
+  - apply InvA_init.
+  - intros w l I. apply InvA_wstep; assumption.
+Qed.
+
+(** ---- C11: sticky ---- *)
+Lemma closed_sticky_step w l : closed (w_sh w) = true -> closed (w_sh (fst (wstep w l))) = true.
+Proof.
+  intro H. destruct l; simpl.
+  - unfold ccall. destruct (cpc_ (w_co w)); simpl; auto. destruct o; simpl; auto; destruct (cit (w_co w)); simpl; auto.
+  - unfold cstep. destruct (cpc_ (w_co w)); simpl; auto.
+    + destruct (cop (w_co w)); simpl; auto.
+    + destruct (Nat.eqb ch 1); simpl; auto. destruct (pipe (w_sh w)); simpl; auto.
+    + rewrite H. simpl. auto.
+    + unfold do_load. destruct (slot (w_sh w) (itpos (w_co w))); simpl; auto.
+    + rewrite H. unfold none_exit, pend_exit, poll_none_retest. simpl. auto.
+    + unfold none_exit, pend_exit, poll_none_retest. destruct (pipe (w_sh w)); simpl; auto.
+    + rewrite H. simpl. auto.
+  - destruct (nth_error (w_bats w) k); simpl; auto. unfold bstep. destruct (n <? MAX_SIGNUM); simpl; auto.
+    unfold do_load. destruct (slot (w_sh w) n); simpl; auto.
+  - destruct (nth_error (w_fr w) k) as [f|]; simpl; auto.
+    destruct f as [[sg info| |sg] p]; destruct p; unfold fstep; simpl; auto.
+    + unfold do_store. destruct (exraw (w_sh w)); [destruct (length (slot (w_sh w) sg) <? CHAN_SLOTS)|]; simpl; auto.
+    + unfold do_wake. destruct (pipe (w_sh w) <? cap (w_sh w)); [destruct (armed (w_sh w))|]; simpl; auto.
+    + unfold do_wake. destruct (pipe (w_sh w) <? cap (w_sh w)); [destruct (armed (w_sh w))|]; simpl; auto.
+    + destruct (idsm (w_sh w)); simpl; auto.
+  - destruct (watch (w_sh w) sg); simpl; auto.
+  - auto.
+  - destruct (sg <? MAX_SIGNUM); simpl; auto.
+Qed.
+
+Lemma closed_sticky_run w ls : closed (w_sh w) = true -> closed (w_sh (fst (run w ls))) = true.
+Proof.
+  revert w; induction ls as [|l r IH]; intros w H; simpl; auto.
+  pose proof (closed_sticky_step w l H) as H1. destruct (wstep w l) as [w1 e1]. simpl in H1.
+  specialize (IH w1 H1). destruct (run w1 r) as [w2 e2]. exact IH.
+Qed.
+
+(** ---- C11: Pending only after the callback answered "nothing" in this very call ---- *)
+Record InvP (w : world) : Prop := {
+  p_p5 : cpc_ (w_co w) = CP5 -> cb_last (w_co w) = Some false \/ closed (w_sh w) = true;
+  p_pend : cpc_ (w_co w) = CIdle -> cres_ (w_co w) = RPending -> cb_last (w_co w) = Some false
+}.
+
+Lemma co_unchanged_step w l :
+  match l with LCall _ | LCons _ => True | _ => w_co (fst (wstep w l)) = w_co w end.
+Proof.
+  destruct l; simpl; auto.
+  - destruct (nth_error (w_bats w) k); simpl; auto. destruct (bstep (w_sh w) n) as [[s p'] es]; reflexivity.
+  - destruct (nth_error (w_fr w) k); simpl; auto. destruct (fstep (w_sh w) f) as [[s f'] es]; reflexivity.
+  - destruct (watch (w_sh w) sg); reflexivity.
+  - destruct (sg <? MAX_SIGNUM); reflexivity.
+Qed.
+
+(** This is the lemma that needs the re-test of is_closed() in poll_signal's Ok(None) arm
+    ([poll_none_retest], extracted from the source): without it the [CP3] step taken with the
+    flag already set reports Pending with [cb_last = None]. *)
+Lemma C11_pending_means_armed_inv w l : InvP w -> InvP (fst (wstep w l)).
+Proof.
+  intro I.
+  assert (Hother : w_co (fst (wstep w l)) = w_co w -> InvP (fst (wstep w l))).
+  { intro E. destruct I as [I1 I2]. constructor; rewrite E; auto.
+    intro H. destruct (I1 H) as [A|A]; auto. right. apply closed_sticky_step; exact A. }
+  pose proof (co_unchanged_step w l) as U.
+  destruct l; auto; clear U Hother; destruct I as [I1 I2]; destruct w as [sh co bats gone fr];
+    destruct co as [p op it res cb n]; simpl in *.
+  - unfold ccall; simpl. destruct p; simpl; try (constructor; simpl; auto; fail).
+    destruct o; simpl; try (constructor; simpl; intros; congruence);
+      (destruct it; simpl; constructor; simpl; intros; auto; congruence).
+  - unfold cstep; simpl. destruct p; simpl.
+    + constructor; simpl; auto.
+    + destruct op; simpl; constructor; simpl; intros; congruence.
+    + constructor; simpl; intros; destruct (closed sh); congruence.
+    + destruct (Nat.eqb ch 1); [constructor; simpl; auto|]. destruct (pipe sh); constructor; simpl; intros; congruence.
+    + destruct (closed sh) eqn:E; simpl; constructor; simpl; intros; try congruence;
+        unfold scan_pc in *; destruct (itpos _ <? MAX_SIGNUM); congruence.
+    + unfold do_load, scan_pc; simpl. destruct (slot sh _); simpl; constructor; simpl; intros; try congruence;
+        destruct (S _ <? MAX_SIGNUM); congruence.
+    + unfold none_exit, pend_exit, poll_none_retest; simpl.
+      destruct (closed sh) eqn:E; simpl; constructor; simpl; intros; auto; try congruence; destruct op; congruence.
+    + unfold none_exit, pend_exit, poll_none_retest; simpl.
+      destruct (pipe sh); simpl; constructor; simpl; intros; auto; congruence.
+    + unfold pend_exit; simpl. destruct (closed sh) eqn:E; simpl; [constructor; simpl; intros; congruence|].
+      destruct (I1 eq_refl) as [A|A]; [|congruence].
+      destruct op; simpl; constructor; simpl; intros; auto; congruence.
+Qed.
+
+Lemma InvP_reach raw c ls : InvP (reach raw c ls).
+Proof.
+  apply reach_ind.
+  - constructor; simpl; intros; congruence.
+  - intros w l I. apply C11_pending_means_armed_inv; assumption.
+Qed.
+
+Theorem pending_means_armed raw c ls : 1 <= c ->
+  let w := reach raw c ls in
+  cpc_ (w_co w) = CIdle -> cres_ (w_co w) = RPending ->
+  cop (w_co w) = OPoll /\ cb_last (w_co w) = Some false /\ 1 <= ncb (w_co w) /\
+  (armed (w_sh w) = true \/ notified (w_sh w) = true).
+Proof.
+  intros Hc w Hi Hr. pose proof (InvA_reach raw c ls Hc) as A. pose proof (InvP_reach raw c ls) as P. fold w in A, P.
+  pose proof (p_pend _ P Hi Hr) as Hcb. pose proof (a_pend _ _ A Hi Hr) as Hop.
+  repeat split; auto.
+  - destruct (ncb (w_co w)) eqn:E; [|lia]. pose proof (a_ncb _ _ A E). congruence.
+  - exact (a_wait _ _ A Hop Hcb).
+Qed.
+
+Theorem sticky raw c ls1 ls2 :
+  closed (w_sh (reach raw c ls1)) = true -> closed (w_sh (reach raw c (ls1 ++ ls2))) = true.
+Proof. intro H. rewrite reach_app. apply closed_sticky_run. exact H. Qed.
+
+(** Once some close() call is past its store (a fortiori once it has returned), the flag is set. *)
+Theorem close_called_closed raw c ls k p : 1 <= c ->
+  nth_error (w_fr (reach raw c ls)) k = Some (mkFrame FK p) -> p <> F0 -> closed (w_sh (reach raw c ls)) = true.
+Proof. intros Hc H Hp. exact (a_k1 _ _ (InvA_reach raw c ls Hc) k p H Hp). Qed.
